@@ -56,6 +56,15 @@ and multi-step histories the earlier ones had not used. What the strengthening a
 * *forced interleavings at hooks*: wp.afterClose window (C14), parked LBClient scans during
   RemoveClients (C40), aged idle connections racing Shutdown (C15), tail flush racing Close (C33, C34).
 
+At the end of the session every saved change was re-evaluated against the final /repo HEAD and the final
+checks (`tools/seedreeval.py`: patch applies and builds, demonstration fails with it and passes without,
+the check reports a violation) and once more at `VERIF_SEED=2`; changes that had been caught only by luck
+(one or two hits, or at one seed only: C12-A, C24-B, C30-D, C13-A/B, C38-B) led to a cheap, frequent or
+enumerated scenario for their class. C17-D is kept for the record but no longer breaks the property since
+the per-IP wrapper repair (its demonstration passes on the patched tree); patches whose context had been
+moved by later fix commits were ported by hand (`patch.original.diff` kept). The repository suite was run
+by the lead on every patched tree (`tools/seedsuite.py`, `suite_ok` in meta.json).
+
 Several of these workloads found further genuine defects in the pinned tree or regressions of
 earlier repairs (§9.2), e.g. the per-IP wrapper recycled before StateClosed, the unread-body flag
 travelling through the ctx pool, Shutdown blocking on a connection idle after a timeout response.
